@@ -19,7 +19,7 @@ OpsAll  == {"assign", "io", "tamper", "hand", "copy", "misc"}
 OpsIO   == {"assign", "io", "tamper", "hand"}
 OpsCopy == {"assign", "copy", "misc"}
 StylesAll == {"short", "medium", "full"}
-KindsAll  == {"duplicate", "deepcopy", "pickle"}
+KindsAll  == {"duplicate", "deepcopy", "pickle", "titled"}
 KindsTwo  == {"duplicate", "pickle"}
 
 Bound == TLCGet("level") <= MaxLevel
@@ -50,14 +50,15 @@ IoPlanT ==
 CopyPlan ==
     /\ An.n \in {"Assign", "AssignBad", "AssignUnknown", "GetSet", "Revert"} =>
           \/ An.o = 1 /\ Cardinality(objs) = 1 /\ Lvl <= 2 /\ An.n = "Assign" /\ An.r # "d"
-          \/ Cardinality(objs) = 2 /\ last.a.n \in {"Modified", "Duplicate", "New"}
-    /\ An.n \in {"Modified", "ModifiedBad", "Duplicate", "New"} => Cardinality(objs) = 1
+          \/ Cardinality(objs) = 2 /\ last.a.n \in {"Modified", "ModifiedObj", "ModifiedNewKey", "Duplicate", "New"}
+    /\ An.n \in {"Modified", "ModifiedObj", "ModifiedNewKey", "ModifiedBad", "Duplicate", "New"} => Cardinality(objs) = 1
 
 \* emission: the edge label lives in `last`; states are identified without it
 St == [n |-> Cardinality(objs), val |-> [o \in 1..Cardinality(objs) |-> val[o]],
        file |-> [es |-> file.es, style |-> file.style], err |-> err,
-       inv |-> SelectSeq(<<"Po", "Zz">>, LAMBDA x : x \in inv), shared |-> <<>>]
-View == <<objs, val, file, err, inv>>
+       inv |-> SelectSeq(<<"Po", "Xk", "Zz">>, LAMBDA x : x \in inv), shared |-> <<>>, kinds |-> <<>>,
+       extra |-> SelectSeq([o \in 1..Cardinality(objs) |-> o], LAMBDA o : o \in extra)]
+View == <<objs, val, file, err, inv, extra>>
 Emit == PrintT(ToJson([lvl |-> TLCGet("level"), from |-> St, act |-> last'.a, to |-> St']))
 EmitIo == IoPlan /\ Emit
 EmitCopy == CopyPlan /\ Emit
